@@ -1,4 +1,5 @@
 import CffiVerif.Model.Layout
+import CffiVerif.Model.LayoutFlags
 import CffiVerif.Spec.GccLayout
 import CffiVerif.Model.Proto
 open CffiVerif CffiVerif.Layout CffiVerif.Proto
@@ -6,6 +7,8 @@ open CffiVerif CffiVerif.Layout CffiVerif.Proto
 /-!
 `layout <type>`  cffi model:   `ok <size> <align> <cf_offset>/<cf_bitshift>/<cf_bitsize> …` (`-` for non-bit-fields)
                                or `err TypeError` / `err NotImplementedError`
+`layoutf MSVC ARM BE <type>`  all-flags model (flags ∈ {0,1}; every aggregate completed with these flags
+                               and its own packing): same answer format, offsets may be negative
 `gcc <type>`     compiler spec: `ok <size> <align> <bitpos>/<width> …`
 
 `<type>` in prefix notation:
@@ -51,6 +54,11 @@ def showC (c : CField) : String :=
   | none => s!"{c.offset}/-/-"
   | some (sh, w) => s!"{c.offset}/{sh}/{w}"
 
+def showF (c : LayoutFlags.FField') : String :=
+  match c.bits with
+  | none => s!"{c.offset}/-/-"
+  | some (sh, w) => s!"{c.offset}/{sh}/{w}"
+
 def showG (g : GccLayout.GField) : String :=
   match g.width with
   | none => s!"{g.bitpos}/-"
@@ -65,6 +73,14 @@ def step (_ : Unit) : List String → Unit × String
       | .error .typeError => ((), "err TypeError")
       | .error .notImplemented => ((), "err NotImplementedError")
     | _ => ((), "bad-op")
+  | "layoutf" :: ms :: ar :: be :: toks =>
+    match bool? ms, bool? ar, bool? be, parseTy toks with
+    | some ms, some ar, some be, some (t, []) =>
+      match LayoutFlags.layoutFlags ⟨ms, ar, be, false⟩ t with
+      | .ok l => ((), " ".intercalate (["ok", toString l.size, toString l.align] ++ l.fields.map showF))
+      | .error .typeError => ((), "err TypeError")
+      | .error .notImplemented => ((), "err NotImplementedError")
+    | _, _, _, _ => ((), "bad-op")
   | "gcc" :: toks =>
     match parseTy toks with
     | some (t, []) =>
